@@ -259,6 +259,11 @@ func (p *SeedPlan) Directive(path, name string) int {
 		return 1
 	}
 	if x < p.DirPermille {
+		if path == "" {
+			// an operation directive that answers (nil, nil) is not a defined way to null an
+			// operation (gqlgen reports "unexpected type <nil> from directive"): it fails instead
+			return 1
+		}
 		return 2
 	}
 	return 0
